@@ -19,7 +19,7 @@ from ..paths import fmt, ptr_parts, strip_casts, eval_concrete, NoValue
 from . import fib
 
 RUNQ_OK = {"list_insert", "list_extract", "list_contains", "list_remove", "list_empty", "list_peek"}
-TIMERQ_OK = {"list_insert_sorted", "list_iterate", "list_contains", "list_remove", "list_empty", "list_peek"}
+TIMERQ_OK = {"list_insert_sorted", "list_iterate", "list_contains", "list_remove", "list_extract", "list_empty", "list_peek"}
 MAY_INSERT = {"fibre_run", "handle_atomic_runq", "update_current_state", "handle_timerq", "<indirect>",
               "list_insert", "list_insert_sorted", "list_push", "list_iterator_insert", "fibre_scheduler_next"}
 LINK_INIT_EXCEPTIONS = {"fibre_init": "initialiser (memset of the fibre_t before it is ever queued)",
@@ -174,6 +174,17 @@ def check_s3(chk, m, K):
                                 it = ptr_parts(c.args[0])[0]
                                 if it[0] in ("alloca", "sym") and iter_q.get(it[1]):
                                     moved = (iter_q[it[1]], k)
+                        # ... or the node is the head just peeked and the head has been extracted since
+                        for k, c in fib.calls_on(p):
+                            if k < k_ins and c.callee == "list_peek" and c.res == node and K.queue_arg(c.args[0]) in ("runq", "timerq"):
+                                qq = K.queue_arg(c.args[0])
+                                ext = [k2 for k2, c2 in fib.calls_on(p) if k < k2 < k_ins and c2.callee == "list_extract"
+                                       and K.queue_arg(c2.args[0]) == qq]
+                                muts = [k2 for k2, c2 in fib.calls_on(p) if k < k2 < (ext[0] if ext else k_ins)
+                                        and fib.callee_name(c2) in MAY_INSERT | {"list_remove", "list_iterator_remove", "list_extract"}
+                                        and k2 not in ext[:1]]
+                                if len(ext) == 1 and not muts and (q != qq):
+                                    moved = (qq, ext[0])
                         if moved is not None:
                             # the node being inserted is the one the iterator designated
                             ev = ("moved out of kernel.%s by list_iterator_remove (a node is on at most one queue)" % moved[0], moved[1])
@@ -202,7 +213,7 @@ def check_s4_s6(chk, m, K):
         names = [fib.callee_name(e) for k, e in fib.calls_on(p)]
         pid = "fibre_scheduler_next " + "->".join(b.lstrip("%") for b in p.blocks)
         key = [x for x in names if x in ("handle_atomic_runq", "update_current_state", "handle_timerq", "get_next_task", "<indirect>")]
-        if "get_next_task" in names or "handle_atomic_runq" in names:
+        if "get_next_task" in names:
             n_slow += 1
             want = ["handle_atomic_runq"]
             # current != NULL on this path?
@@ -232,17 +243,19 @@ def check_s4_s6(chk, m, K):
                 if cc[0] == "icmp" and strip_casts(cc[2])[0] == "ld" and strip_casts(cc[2])[1] == K.kptr("state") and cc[3][0] == "c":
                     if cc[3][2] == yielded and ((cc[1] == "ne" and not taken) or (cc[1] == "eq" and taken)):
                         facts["yielded"] = True
-                for q in ("runq", "timerq"):
-                    if cc[0] == "icmp" and cc[2][0] == "ld" and cc[2][1] == K.kptr(q) and cc[3] == ("null",):
-                        if (cc[1] == "eq" and taken) or (cc[1] == "ne" and not taken):
-                            facts[q] = True
-            for k, e, truth in fib.cond_truth_of_call(p, "list_empty"):
-                q = K.queue_arg(e.args[0])
-                if q in facts and truth is True:
+            qf = fib.queue_empty_facts(p, K)
+            for q in ("runq", "timerq", "atomic"):
+                if q in qf and qf[q][0] is True:
                     facts[q] = True
-            for k, e, truth in fib.cond_truth_of_call(p, "messageq_empty"):
-                if K.queue_arg(e.args[0]) == "atomic_runq" and truth is True:
-                    facts["atomic"] = True
+            # draining the atomic queue before the run queue is tested serves the same purpose: every request accepted
+            # before the pass has then been moved to the run queue, whose emptiness is tested afterwards
+            drains = [k for k, e in fib.calls_on(p) if fib.callee_name(e) == "handle_atomic_runq"]
+            if drains and "runq" in qf and qf["runq"][0] is True and min(drains) < qf["runq"][1]:
+                facts["atomic"] = True
+            extra = [x for x in names if x in ("update_current_state", "handle_timerq")]
+            if extra:
+                chk.ob("S4.pass-order", pid, False, "a path that dispatches without popping the run queue calls %s" % extra,
+                       p.ret_inst.loc, fn.name)
             missing = [k for k, v in facts.items() if not v]
             chk.ob("S6.fast-path-guards", pid, not missing,
                    "the scheduler skips its queues only if the previous fibre yielded and the run queue, the timer queue and the "
